@@ -93,3 +93,23 @@ def nt_alignment(inp):
                         bad.append({'times_a': str(ta), 'times_b': str(tb), 'entry': [i, j], 'steps': [int(ka), int(kb)],
                                     'observed': str(got), 'required': 'NaN' if kb < ka else str(exact(ka, kb))})
     return {'violates': bool(bad), 'detail': bad[:3], 'n_bad_entries': len(bad)}
+
+
+def three_operators_same_step(inp):
+    """<C(t) B(s) A(s)> with A and B at the SAME step must equal the two-operator correlation
+    <C(t) (BA)(s)>  (both operators on the left) resp. <C(t) rho (AB)> ordering on the right"""
+    import oqupy
+    sx, sy, sz = [oqupy.operators.sigma(c) for c in 'xyz']
+    pt, n = _exact_pt(stored_dt=0.2)
+    sys_ = oqupy.System(0.7 * sx + 0.2 * sz)
+    rho0 = np.array([[0.7, 0.2 - 0.1j], [0.2 + 0.1j, 0.3]])
+    A, B, C = sz + 0.3 * sx, sy + 0.2 * sz, sx
+    bad = []
+    for s in (0, 2, 3):
+        for order, prod in ((['left', 'left', 'left'], B @ A), (['right', 'right', 'left'], A @ B)):
+            _, c3 = oqupy.compute_correlations_nt(sys_, pt, [A, B, C], [s, s, [s, 4]], order, initial_state=rho0, progress_type='silent')
+            _, c2 = oqupy.compute_correlations_nt(sys_, pt, [prod, C], [s, [s, 4]], [order[0], 'left'], initial_state=rho0, progress_type='silent')
+            err = float(np.nanmax(np.abs(c3[0, 0] - c2[0])))
+            if err > 1e-9:
+                bad.append({'step': s, 'ops_order': order, 'max_error': err})
+    return {'violates': bool(bad), 'detail': bad[:3]}
